@@ -113,10 +113,140 @@ Example C05_ex_partially_read :
   = [ROk (Some ex_text); ROk (Some ex_ping); RErr (EIo ConnReset)].
 Proof. vm_compute. reflexivity. Qed.
 
+(* concrete instance: one byte at a time with a WouldBlock after every byte == the whole chunk at once *)
+Theorem C05_frames_one_byte_at_a_time : forall ms unmask acc c w bs tail f1 f2,
+  bs <> [] -> w_rds w = RdData bs :: tail ->
+  let w' := w_set_rds w (drip bs ++ tail) in
+  (mu c (w_rds w) < f1)%nat -> (mu c (w_rds w') < f2)%nat ->
+  drive f1 ms unmask acc c w = drive f2 ms unmask acc c w'.
+Proof.
+  intros ms unmask acc c w bs tail f1 f2 Hne Hw w' H1 H2.
+  destruct (sched_drip_whole bs tail Hne) as [A B].
+  apply drive_sched_indep; try assumption; rewrite Hw; symmetry; assumption.
+Qed.
+
+(* ================================ message level (Protocol.read) ================================ *)
+(* [reads fuel x w] = the results of successive [read] calls, WouldBlocks dropped, up to and including
+   the first error ("the sequence of messages and the final error").
+
+   FINDING.  With only "the write side accepts everything" as hypothesis the message-level statement is
+   FALSE for the model (= the repaired code).  Server, write_buffer_size 100, max_write_buffer_size 101;
+   write(Binary, 96 bytes) succeeds and leaves its 98-byte frame in out_buffer.  Inbound stream: a Close
+   frame, then an empty Text frame.  Both schedules below carry the same bytes and end in silence:
+     rds1 = the 14 bytes in one chunk                 -> [Close(1000); Err ReceivedAfterClosing]
+     rds2 = Close frame, WouldBlock, Text frame       -> [Close(1000); Err ConnectionClosed]
+   Cause: the 4-byte Close reply does not fit beside the 98 queued bytes, _write re-parks it in
+   additional_send and flush drains out_buffer; the extra read() call made after the WouldBlock retries
+   the reply, now it fits, and the server tail of _write terminates the connection before the Text
+   frame is looked at.  The final error therefore depends on the segmentation. *)
+Theorem C05_messages_refuted :
+  exists (cfg : config) (msg : message) (rds1 rds2 : list rd_out) (wrs : list wr_out) (fls : list fl_out)
+         (x0 x : ctx) (w1 w2 : world),
+    Forall (acc_wr (cfg_max_write_buffer_size cfg)) wrs /\ Forall (fun o => o = FlOk) fls /\
+    sched_data rds1 = sched_data rds2 /\ sched_end rds1 = sched_end rds2 /\
+    ctx_new Server [] cfg = Some x0 /\
+    write x0 msg (mkWorld rds1 wrs fls [] []) = (ROk tt, x, w1) /\
+    write x0 msg (mkWorld rds2 wrs fls [] []) = (ROk tt, x, w2) /\
+    blen (c_out (x_codec x)) = 98 /\
+    reads 50 x w1 = [ROk (MClose (Some (CNormal, []))); RErr (EProtocol ReceivedAfterClosing)] /\
+    reads 50 x w2 = [ROk (MClose (Some (CNormal, []))); RErr EConnectionClosed].
+Proof. exact messages_refuted_witness. Qed.
+
+(* CORRECTED STATEMENT: add "nothing is queued in out_buffer when reading starts" (true of a fresh socket
+   and after every successful flush).  Hypotheses:
+   - [ctx_ready B x]: max_write_buffer_size = B, out_buffer = [], and a held frame header is still waiting
+     for payload bytes (true of every reachable codec state);
+   - [supply B x w]: the write side accepts: every write entry accepts >= B bytes, every flush entry is Ok,
+     and there are at least 2*(mu+1) write and mu+1 flush entries (an exhausted oracle means WouldBlock).
+   No hypothesis on the context state, the role, the configuration, the mask-key oracle or the schedule. *)
+
+(* under EVERY schedule the results of read are those of the reference machine [mloop] (pre-step, then
+   on_frame, per item) run over the whole-stream frame reference [fview x w] *)
+Theorem C05_messages_ref : forall B fuel x w,
+  c_max_out (x_codec x) = B -> c_out (x_codec x) = [] -> codec_rest (x_codec x) ->
+  supply B x w -> (xmu x w < fuel)%nat ->
+  reads fuel x w = if is_terminated (x_state x) then [RErr EAlreadyClosed] else mloop (fview x w) x.
+Proof. exact reads_ref. Qed.
+
+Theorem C05_messages : forall B x w1 w2 f1 f2,
+  ctx_ready B x -> supply B x w1 -> supply B x w2 ->
+  sched_data (w_rds w1) = sched_data (w_rds w2) ->
+  sched_end (w_rds w1) = sched_end (w_rds w2) ->
+  (xmu x w1 < f1)%nat -> (xmu x w2 < f2)%nat ->
+  reads f1 x w1 = reads f2 x w2.
+Proof. exact reads_sched_indep. Qed.
+
+(* a read that returns WouldBlock leaves a context from which the remaining results are exactly the
+   results that were due before the call (frames completed before blocking are kept in the incomplete
+   message, bytes of the frame in progress in in_buffer/header): nothing lost, nothing seen twice *)
+Theorem C05_wouldblock_noop : forall B x w x' w',
+  ctx_ready B x -> supply B x w ->
+  read x w = (RErr (EIo WouldBlock), x', w') ->
+  ctx_ready B x' /\ x_state x' <> Terminated /\
+  forall f f', supply B x' w' -> (xmu x' w' < f')%nat -> (xmu x w < f)%nat ->
+               reads f' x' w' = reads f x w.
+Proof. exact reads_wouldblock_noop. Qed.
+
+(* from_partially_read p, then a schedule  ==  a fresh socket under any schedule delivering p ++ data *)
+Theorem C05_partially_read : forall r p cfg xp x0 w w0 f f0,
+  ctx_new r p cfg = Some xp -> ctx_new r [] cfg = Some x0 ->
+  supply (cfg_max_write_buffer_size cfg) xp w -> supply (cfg_max_write_buffer_size cfg) x0 w0 ->
+  sched_data (w_rds w0) = p ++ sched_data (w_rds w) ->
+  sched_end (w_rds w0) = sched_end (w_rds w) ->
+  (xmu xp w < f)%nat -> (xmu x0 w0 < f0)%nat ->
+  reads f xp w = reads f0 x0 w0.
+Proof. exact reads_partially_read. Qed.
+
+(* removing all WouldBlocks / merging chunks / dripping bytes keeps data and terminal: instances *)
+Theorem C05_sched_instances :
+  (forall rds, sched_data (filter not_wb rds) = sched_data rds /\ sched_end (filter not_wb rds) = sched_end rds) /\
+  (forall bs tail, bs <> [] ->
+     sched_data (drip bs ++ tail) = sched_data (RdData bs :: tail) /\
+     sched_end (drip bs ++ tail) = sched_end (RdData bs :: tail)).
+Proof. split; [exact sched_filter_wb|exact sched_drip_whole]. Qed.
+
+(* ---- non-vacuity at the message level: tight write buffer (the Close reply never fits), server ---- *)
+Definition ex_mcfg : config := mkConfig 0 3 None None false.
+Definition ex_mping : bytes := [137; 129; 0; 0; 0; 0; 7].
+Definition ex_mclose : bytes := [136; 130; 0; 0; 0; 0; 3; 232].
+Definition ex_mw (rds : list rd_out) : world :=
+  mkWorld rds (repeat (WrAccept 1000) 200) (repeat FlOk 100) [(1, 2, 3, 4); (5, 6, 7, 8)] [].
+Definition ex_rds1 : list rd_out := [RdData (ex_mping ++ ex_mping ++ ex_mclose); RdEof].
+Definition ex_rds2 : list rd_out :=
+  drip ex_mping ++ [RdData ex_mping; RdErr WouldBlock; RdErr WouldBlock] ++ drip ex_mclose ++ [RdEof].
+
+Example C05_ex_messages :
+  exists x, ctx_new Server [] ex_mcfg = Some x /\
+    ctx_ready 3 x /\ supply 3 x (ex_mw ex_rds1) /\ supply 3 x (ex_mw ex_rds2) /\
+    sched_data ex_rds1 = sched_data ex_rds2 /\ sched_end ex_rds1 = sched_end ex_rds2 /\
+    (xmu x (ex_mw ex_rds1) < 100)%nat /\ (xmu x (ex_mw ex_rds2) < 100)%nat /\
+    reads 100 x (ex_mw ex_rds2)
+    = [ROk (MPing [7]); ROk (MPing [7]); ROk (MClose (Some (CNormal, []))); RErr EConnectionClosed].
+Proof.
+  eexists. split; [reflexivity|].
+  assert (HW : forall n, Forall (acc_wr 3) (repeat (WrAccept 1000) n)).
+  { intros n. apply Forall_forall. intros o Ho. apply repeat_spec in Ho. subst o. cbn. discriminate. }
+  assert (HF : forall n, Forall (fun o => o = FlOk) (repeat FlOk n)).
+  { intros n. apply Forall_forall. intros o Ho. apply repeat_spec in Ho. exact Ho. }
+  split. { unfold ctx_ready, codec_rest. cbn. auto. }
+  split. { unfold supply, wgood. cbn [ex_mw w_wrs w_fls]. rewrite !repeat_length.
+           split; [apply HW|]. split; [apply HF|]. vm_compute. split; repeat constructor. }
+  split. { unfold supply, wgood. cbn [ex_mw w_wrs w_fls]. rewrite !repeat_length.
+           split; [apply HW|]. split; [apply HF|]. vm_compute. split; repeat constructor. }
+  vm_compute. repeat split; try reflexivity; repeat constructor.
+Qed.
+
 Print Assumptions C05_frames_ref.
 Print Assumptions C05_frames.
 Print Assumptions C05_frames_fuel_ok.
+Print Assumptions C05_frames_one_byte_at_a_time.
 Print Assumptions C05_wouldblock_state_frames.
 Print Assumptions C05_wouldblock_noop_frames.
 Print Assumptions C05_wouldblock_removed_frames.
 Print Assumptions C05_partially_read_frames.
+Print Assumptions C05_messages_refuted.
+Print Assumptions C05_messages_ref.
+Print Assumptions C05_messages.
+Print Assumptions C05_wouldblock_noop.
+Print Assumptions C05_partially_read.
+Print Assumptions C05_sched_instances.
